@@ -124,6 +124,15 @@ Directed ==
   \cup { pre \o body \o <<f>> : pre \in {<<27, 91>>, <<155>>},
                                  body \in { <<>>, <<53>>, <<53, 59, 49, 50>>, <<59>>, <<63, 53>>, <<53, 59>>, <<59, 59, 55>> },
                                  f \in CsiFinals \cup Unsupported }
+\* long inputs: many parameters, zero-padded numbers, long payloads (buffer-size assumptions)
+ManyParams(n, fin) == <<27, 91>> \o FoldLeft(LAMBDA acc, i : acc \o (IF i > 1 THEN <<59>> ELSE <<>>) \o <<48 + (i % 10)>>, <<>>, [i \in 1..n |-> i]) \o <<fin>>
+LongOnes ==
+  { ManyParams(n, f) : n \in {5, 16, 17, 32, 33, 64}, f \in {109, 72, 104, 114} }
+  \cup { <<27, 91>> \o DigitRun(n, 48) \o <<d>> \o <<59>> \o DigitRun(n, 48) \o <<49, 48>> \o <<f>> : n \in {1, 4, 5, 30}, d \in {53, 57}, f \in {72, 102} }
+  \cup { <<27, 93, 50, 59>> \o [i \in 1..n |-> 97 + (i % 26)] \o <<7>> : n \in {63, 64, 65, 255, 256, 257, 1100} }
+  \cup { <<27, 91>> \o [i \in 1..n |-> 59] \o <<72>> : n \in {1, 2, 3, 20} }
+  \cup { <<27, 91>> \o [i \in 1..n |-> 32] \o <<53, 65>> : n \in {1, 40} }
+
 OscPayloads ==
   { <<>>, <<59>>, <<59, 120>>, <<59, 120, 59, 121>>, <<59, 92, 120>>, <<59, 93, 32, 233>>, <<59, 27, 120, 121>>,
     <<59, 1, 120>>, <<59, 19968, 27, 93>>, <<59, 59>>, <<59, 59, 120>>, <<59, 120, 27, 27, 121>>, <<59, 24, 120>>,
@@ -150,7 +159,7 @@ Triples == { a \o b \o c : a \in FirstSeqs, b \in {<<27, 91, 51, 24>>, <<27, 91,
 
 Seeds == CASE Family = "graph"    -> {<<>>}
            [] Family = "pairs"    -> Pairs \cup Triples
-           [] Family = "directed" -> Directed
+           [] Family = "directed" -> Directed \cup LongOnes
            [] Family = "osc"      -> OscStrings
 
 -----------------------------------------------------------------------------
